@@ -3,6 +3,7 @@ package c13
 import (
 	"bytes"
 	"fmt"
+	"math"
 
 	"seehuhn.de/go/pdf"
 	"seehuhn.de/go/pdf/font/charcode"
@@ -36,6 +37,7 @@ const maxRawCodes = 8000
 type rawModel struct {
 	codes    map[string]bool   // valid codes covered by a well-formed entry
 	free     map[string]bool   // valid codes in the bounding box of a malformed range
+	huge     []hugeRange       // well-formed cidranges with more than maxRawCodes codes
 	nonRect  bool              // a malformed range with First <= Last as byte strings
 	reversed bool              // a malformed range with First > Last as byte strings
 	absCID   map[string]uint32 // value known absolutely
@@ -50,6 +52,35 @@ func boundingBox(first, last []byte) cmapmodel.Range {
 		box.Low[i], box.High[i] = min(first[i], last[i]), max(first[i], last[i])
 	}
 	return box
+}
+
+// hugeRange is a cidrange too large to enumerate.  All bytes after the first
+// span 00..FF, so that "the n-th code of the range" means the same thing
+// under every reading: the codes are consecutive numbers.
+type hugeRange struct {
+	rect cmapmodel.Range
+	base uint32
+}
+
+func (m *rawModel) inHuge(code []byte) bool {
+	for _, h := range m.huge {
+		if h.rect.Contains(code) {
+			return true
+		}
+	}
+	return false
+}
+
+// hugeIndices lists the positions of a huge range which are probed.
+func hugeIndices(n uint64) []uint64 {
+	cand := []uint64{0, 1, 1<<24 - 1, 1 << 24, 1<<24 + 1, n / 2, 1<<31 - 2, 1<<31 - 1, 1 << 31, 1<<31 + 1, 3 << 30, n - 2, n - 1}
+	var out []uint64
+	for _, i := range cand {
+		if i < n {
+			out = append(out, i)
+		}
+	}
+	return out
 }
 
 func lastByteOnly(first, last []byte) bool {
@@ -99,6 +130,18 @@ func buildRawModel(c *Case, text bool) (*rawModel, error) {
 		}
 		rects = append(rects, rect)
 		n := rect.NumCodes()
+		if !malformed && !text && n > maxRawCodes {
+			for i := 1; i < rect.Len(); i++ {
+				if rect.Low[i] != 0x00 || rect.High[i] != 0xFF {
+					return nil, fmt.Errorf("generator error: huge raw range %v with a partial trailing byte", rect)
+				}
+			}
+			if !space.IsCode(rect.Low) || !space.IsCode(rect.High) {
+				return nil, fmt.Errorf("generator error: huge raw range %v outside the code space", rect)
+			}
+			m.huge = append(m.huge, hugeRange{rect: rect, base: r.CID})
+			continue
+		}
 		total += n
 		if total > maxRawCodes {
 			return nil, fmt.Errorf("generator error: raw ranges too large")
@@ -195,7 +238,9 @@ func (m *rawModel) checkCounts(stage string, count int, keys []string) error {
 			return fmt.Errorf("%s: All() yields <%x>, which no entry covers", stage, k)
 		}
 	}
-	if outside != m.expected {
+	// A huge range uses up the documented enumeration budget
+	// (limits.MaxCMapMappings); entries after it may then be cut off.
+	if outside != m.expected && (len(m.huge) == 0 || outside > m.expected) {
 		return fmt.Errorf("%s: All() yields %d of the %d codes which the well-formed entries cover", stage, outside, m.expected)
 	}
 	if len(m.free) == 0 && count != len(keys) {
@@ -238,7 +283,7 @@ func rawProbes(c *Case, m *rawModel) [][]byte {
 	seen := map[string]bool{}
 	var out [][]byte
 	add := func(code []byte) {
-		if len(code) == 0 || seen[string(code)] || m.codes[string(code)] || m.free[string(code)] || !space.IsCode(code) {
+		if len(code) == 0 || seen[string(code)] || m.codes[string(code)] || m.free[string(code)] || m.inHuge(code) || !space.IsCode(code) {
 			return
 		}
 		seen[string(code)] = true
@@ -284,6 +329,7 @@ func checkRawCID(c *Case) error {
 		return err
 	}
 	c.obs.nonRect, c.obs.reversed = m.nonRect, m.reversed
+	c.obs.hugeRawRange = len(m.huge) > 0
 	l := c.Layers[0]
 	f := &cmap.File{Name: l.Name, WMode: 0, CodeSpaceRange: toLib(l.Space)}
 	if l.ROS != nil {
@@ -308,10 +354,25 @@ func checkRawCID(c *Case) error {
 		got := map[string]uint32{}
 		count := 0
 		var buf []byte
+		hugeSeen := 0
 		for code, v := range g.All(codec) {
 			buf = codec.AppendCode(buf[:0], code)
-			count++
-			got[string(buf)] = uint32(v)
+			if len(m.huge) > 0 && m.inHuge(buf) {
+				// Not collected, every 64th compared.  All codes of the
+				// range are valid, so once it has been reached it uses up
+				// the whole enumeration budget (limits.MaxCMapMappings) and
+				// nothing else follows: stop early.
+				hugeSeen++
+				if hugeSeen > 8192 {
+					break
+				}
+				if hugeSeen%64 != 1 {
+					continue
+				}
+			} else {
+				count++
+				got[string(buf)] = uint32(v)
+			}
 			// enumeration and lookup agree
 			if lv := uint32(g.LookupCID(buf)); lv != uint32(v) {
 				return nil, fmt.Errorf("%s: All() yields <%x> -> %d but LookupCID gives %d", stage, buf, v, lv)
@@ -323,6 +384,27 @@ func checkRawCID(c *Case) error {
 		for _, k := range sortedKeys(got) {
 			if want, ok := m.absCID[k]; ok && want != got[k] {
 				return nil, fmt.Errorf("%s: <%x> -> %d, want %d", stage, k, got[k], want)
+			}
+		}
+		// Huge ranges: consecutive codes have consecutive CIDs.  For
+		// positions above math.MaxInt32 the library documents (rangeIndex)
+		// that the code is treated as unmapped; both that and the
+		// consecutive value are accepted there.
+		for _, h := range m.huge {
+			for _, idx := range hugeIndices(h.rect.NumCodes()) {
+				code := h.rect.CodeAt(idx)
+				lv := uint32(g.LookupCID(code))
+				want := h.base + uint32(idx)
+				if lv != want && (idx <= math.MaxInt32 || lv != 0) {
+					return nil, fmt.Errorf("%s: LookupCID(<%x>) = %d, code %d of cidrange %v with first CID %d: want %d", stage, code, lv, idx, h.rect, h.base, want)
+				}
+				c.obs.lookups++
+				if idx > math.MaxInt32 {
+					c.obs.hugeBeyondCap = true
+				}
+			}
+			if hugeSeen == 0 {
+				return nil, fmt.Errorf("%s: All() yields no code of cidrange %v", stage, h.rect)
 			}
 		}
 		// a code which looks up as mapped is enumerated (no notdef entries
@@ -371,6 +453,11 @@ func checkRawCID(c *Case) error {
 		return err
 	}
 	for _, k := range sortedKeys(before) {
+		if _, ok := after[k]; !ok && len(m.huge) > 0 {
+			// the reader sorts the entries; with a huge range, the documented
+			// enumeration budget may now cut off different entries
+			continue
+		}
 		if !m.free[k] && after[k] != before[k] {
 			return fmt.Errorf("after Embed/Extract: <%x> -> %d, before embedding %d", k, after[k], before[k])
 		}
